@@ -166,6 +166,8 @@ fn cmd_check(args: &Args) -> i32 {
     let known = load_known(args.opt("known"));
     let replay_dir = args.opt("replay-dir").unwrap_or("/verif/replays").to_string();
     let opts = CheckOpts {
+        replay_dir: replay_dir.clone(),
+        found_line: args.flag("found-line"),
         prop,
         tier,
         seed,
@@ -262,10 +264,18 @@ fn cmd_check(args: &Args) -> i32 {
         };
         // re-evaluate the minimised case for the final detail text
         let limit = Duration::from_secs(if viol.oracle == "hang" { 5 } else { 60 });
-        let ev_min = engine::evaluate_guarded(prop, &min, limit);
-        let (min, ev_final) = match &ev_min.violation {
-            Some(v2) if v2.oracle == viol.oracle => (min, ev_min),
-            _ => (base.clone(), engine::evaluate_guarded(prop, base, limit)),
+        let runaway = || engine::RUNAWAY.load(std::sync::atomic::Ordering::SeqCst);
+        // (once some candidate has been caught allocating without bound, its thread cannot be
+        // stopped: no further evaluations, report what we have and exit)
+        let (min, ev_final) = if runaway() {
+            (min, f.eval.clone())
+        } else {
+            let ev_min = engine::evaluate_guarded(prop, &min, limit);
+            match &ev_min.violation {
+                Some(v2) if v2.oracle == viol.oracle => (min, ev_min),
+                _ if runaway() => (base.clone(), f.eval.clone()),
+                _ => (base.clone(), engine::evaluate_guarded(prop, base, limit)),
+            }
         };
         let ev_final = if ev_final.violation.is_some() {
             ev_final
@@ -289,8 +299,11 @@ fn cmd_check(args: &Args) -> i32 {
             return 2;
         }
         // the replay must reproduce, in this process at least (bin/check re-runs it fresh)
-        let again = engine::replay(&path);
-        let reproduced = matches!(&again, Ok(o) if o.eval.violation.as_ref().map(|v| v.oracle) == Some(viol.oracle));
+        let reproduced = runaway() || {
+            let again = engine::replay(&path);
+            runaway()
+                || matches!(&again, Ok(o) if o.eval.violation.as_ref().map(|v| v.oracle) == Some(viol.oracle))
+        };
         let v2 = ev_final.violation.as_ref().unwrap();
         println!("  oracle {}: {}", v2.oracle, v2.detail);
         println!("  minimised source ({} candidate runs):", shrink_runs);
